@@ -2,6 +2,7 @@
 //! usage: sim-io <PROPERTY-ID> [--tier quick|thorough] [--seed N] [--replay FILE] [--digest] [--runs N]
 
 mod checks;
+mod checks2;
 mod drive;
 mod gen;
 mod judge;
@@ -18,6 +19,10 @@ fn make(id: &str) -> Option<Box<dyn Check>> {
             let id: &'static str = Box::leak(id.to_string().into_boxed_str());
             Box::new(checks::ReadCheck { id })
         }
+        "C03" => Box::new(checks2::C03),
+        "C09" => Box::new(checks2::C09),
+        "C12" => Box::new(checks2::C12),
+        "C14" => Box::new(checks2::C14),
         _ => return None,
     })
 }
